@@ -1,6 +1,7 @@
 """Generators and the implementation runner for the Matryoshka power manager (C03, C04, C11)."""
 from __future__ import annotations
 
+import math
 import random
 from datetime import timedelta
 from fractions import Fraction
@@ -23,6 +24,39 @@ def lattice(rng: random.Random) -> list[Fraction]:
 def near(rng: random.Random, anchors: list[Fraction]) -> Fraction:
     a = rng.choice(anchors)
     return a + rng.choice([0, 0, 0, Fraction(1, 2), -Fraction(1, 2), 1, -1])
+
+
+# Tiny magnitudes (all exactly representable doubles, written as exact rationals): float residue such as
+# 0.1 + 0.2 - 0.3 = 2^-54 W, 2^-40, 2^-60, the smallest subnormal, and the doubles at / just below / just above 1e-9
+# (the tolerance of the repo's `is_close_to_zero`).  "Zero or outside the exclusion zone" must hold for them as for
+# any other non-zero power.
+_E9 = float(1e-9)
+TINY_POS = [Fraction(1, 2 ** 40), Fraction(1, 2 ** 54), Fraction(1, 2 ** 60), Fraction(1, 2 ** 1074),
+            Fraction(_E9), Fraction(math.nextafter(_E9, 0.0)), Fraction(math.nextafter(_E9, 1.0))]
+SUB_ULP = Fraction(1, 2 ** 45)   # below this, `zone_end - v` is not exact in doubles for lattice zone ends
+
+
+def tiny(rng: random.Random) -> Fraction:
+    return rng.choice(TINY_POS) * rng.choice([1, -1])
+
+
+def tie_safe(v: Fraction | None, sbs: list[dict]) -> Fraction | None:
+    """The sweep decides between the two zone ends with `hi - v < v - lo` in doubles.  For an exactly symmetric zone
+    and 0 < v < ulp the doubles see a tie where the rationals do not; such a preference is mirrored to -v (where
+    both agree) so that model, oracle and implementation stay exactly comparable."""
+    if v is None or not 0 < v < SUB_ULP:
+        return v
+    for sb in sbs:
+        if sb["excl"] is not None and Fraction(sb["excl"][0]) == -Fraction(sb["excl"][1]) != 0:
+            return -v
+    return v
+
+
+def float_exact(x: Fraction) -> bool:
+    try:
+        return Fraction(float(x)) == x
+    except OverflowError:
+        return False
 
 
 def gen_sb(rng: random.Random, anchors: list[Fraction], in_domain: bool = True) -> dict:
@@ -68,8 +102,10 @@ def gen_proposal(rng: random.Random, anchors: list[Fraction], now: Fraction, pri
             "created": rat(now)}
 
 
-def gen_script(rng: random.Random, n_ops: int, in_domain: bool = True, distinct_prios: bool = False) -> dict:
-    """A script of operations on one Matryoshka instance."""
+def gen_script(rng: random.Random, n_ops: int, in_domain: bool = True, distinct_prios: bool = False,
+               tiny_values: bool = False) -> dict:
+    """A script of operations on one Matryoshka instance.  tiny_values: preferences, proposal bounds and adjust
+    probes are replaced by tiny non-zero magnitudes with probability ~1/3 each."""
     anchors = lattice(rng)
     prios = sorted({rng.randint(-3, 6) for _ in range(rng.randint(1, 5))})
     sb = gen_sb(rng, anchors, in_domain)
@@ -84,6 +120,10 @@ def gen_script(rng: random.Random, n_ops: int, in_domain: bool = True, distinct_
             p = gen_proposal(rng, anchors, now, prios)
             if distinct_prios:
                 p["src"] = used.setdefault(p["prio"], p["src"])
+            if tiny_values:
+                for k in ("pref", "lo", "hi"):
+                    if p[k] is not None and rng.random() < (0.5 if k == "pref" else 0.25):
+                        p[k] = rat(tiny(rng))
             ops.append({"op": "calc", "p": p, "sb": sb, "must": rng.random() < 0.3})
         elif r < 0.62:
             ops.append({"op": "calc", "p": None, "sb": sb, "must": rng.random() < 0.5})
@@ -94,10 +134,15 @@ def gen_script(rng: random.Random, n_ops: int, in_domain: bool = True, distinct_
             ops.append({"op": "status", "prio": rng.choice(prios) + rng.choice([0, 0, -1, 1]), "sb": sb})
         elif r < 0.95:
             ops.append({"op": "adjust", "prio": rng.choice(prios) + rng.choice([0, 0, -1, 1]), "sb": sb,
-                        "power": rat(near(rng, anchors))})
+                        "power": rat(tiny(rng) if tiny_values and rng.random() < 0.4 else near(rng, anchors))})
         else:
             ops.append({"op": "get"})
         now += rng.choice([0, 0, 1, 5, Fraction(1, 4)])
+    if tiny_values:
+        sbs = [op["sb"] for op in ops if "sb" in op]
+        for op in ops:
+            if op["op"] == "calc" and op["p"] is not None:
+                op["p"]["pref"] = rat(tie_safe(fr(op["p"]["pref"]), sbs))
     return {"ops": ops}
 
 
